@@ -211,7 +211,7 @@ theorem insertKnot_open (b : Basis K) (hv : b.Valid) (hper : b.periodic = -1) (x
       unfold idxErr
       omega
     simp only []
-    rw [← hmu, if_neg hidx, if_neg (by omega)]
+    rw [← hmu, if_neg (by omega), if_neg (by omega), if_neg hidx]
     unfold repair
     rw [if_neg (by rw [hper]; decide)]
   · refine ⟨hp, (show 2 * b.order ≤ (Basis.insertAt b.knots mu x).size by rw [hsize]; omega), fun i _ => ?_, by rw [hper], Or.inr hper, ?_, ?_⟩
